@@ -27,6 +27,7 @@ fn take_panics() -> Vec<(String, String)> {
 }
 
 pub struct CaseResult {
+    pub drift: Vec<String>,
     pub obs: Vec<Obs>,
     pub stats: Stats,
     pub hung: bool,
@@ -42,9 +43,11 @@ pub fn run_one(h: &History, checks: &Checks, secs: u64) -> CaseResult {
     });
     let panics = take_panics();
     let mut obs = vec![];
+    let mut drift = vec![];
     let (stats, hung) = match r {
         Some(out) => {
             obs = out.obs;
+            drift = out.drift;
             (out.stats, false)
         }
         None => (Stats::default(), true),
@@ -60,7 +63,7 @@ pub fn run_one(h: &History, checks: &Checks, secs: u64) -> CaseResult {
     if hung {
         obs.push(Obs { sig: "c09:operation-hangs".into(), what: format!("the history did not finish within {secs} s"), at: 0 });
     }
-    CaseResult { obs, stats, hung }
+    CaseResult { drift, obs, stats, hung }
 }
 
 /// delta-debugging on the operation list: keep removing chunks while a failure with the same
@@ -229,6 +232,9 @@ fn add_stats(rep: &mut Report, s: &Stats) {
     rep.add("lsm.idle-checks", s.idle_checks);
     rep.add("lsm.compactions-with-live-snapshots", s.snapshots_alive_at_compaction);
     rep.add("lsm.obsolete-files-lingering-until-next-pass", s.lingering);
+    rep.add("lsm.transitions-validated-against-model", s.events_validated);
+    rep.add("lsm.states-validated-against-model", s.states_validated);
+    rep.add("lsm.entries-dropped-by-compactions", s.entries_dropped);
     let bump = |rep: &mut Report, k: &str, v: u64| {
         let cur = rep.dist.get(k).copied().unwrap_or(0);
         if v > cur {
@@ -265,10 +271,10 @@ pub fn rule() -> &'static str {
 }
 
 /// child (or in-process) execution of the shard's share of the job list
-pub fn run(tier: &str, seed: u64, prop: &str, replay: Option<&str>, corpus_dir: &str, shard: Option<ShardArgs>) -> Report {
+pub fn run(tier: &str, seed: u64, prop: &str, replay: Option<&str>, corpus_dir: &str, shard: Option<ShardArgs>, drv_path: &str) -> Report {
     install_panic_hook();
     let mut rep = Report::new("lsm", rule());
-    let checks = Checks::default();
+    let checks = Checks { drv_path: if drv_path == "none" { None } else { Some(drv_path.to_string()) }, ..Checks::default() };
     let secs = 60;
     if let Some(line) = replay {
         match History::from_line(line) {
@@ -304,6 +310,10 @@ pub fn run(tier: &str, seed: u64, prop: &str, replay: Option<&str>, corpus_dir: 
         let nontrivial = r.stats.flushes + r.stats.compactions + r.stats.trivial_moves > 0;
         rep.case(&line, nontrivial);
         add_stats(&mut rep, &r.stats);
+        for dmsg in r.drift.iter().take(3) {
+            rep.drift.push(format!("{dmsg} :: {line}"));
+            rep.count("model_drift");
+        }
         rep.count(&format!("lsm.cfg.reuse.{}", h.cfg.reuse));
         let mut sigs: Vec<&Obs> = vec![];
         for o in &r.obs {
